@@ -11,6 +11,7 @@
    files, and every mixture.  `run` returning Some also says no call failed with an OS error. *)
 From Coq Require Import NArith List Bool.
 Require Import DS.Model.Durable DS.Proofs.DurableProofs DS.Proofs.DurablePrograms DS.Proofs.DurablePublish.
+Require Import DS.Model.DurableChunks DS.Proofs.DurableChunksProofs.
 Import ListNotations.
 Open Scope N_scope.
 
@@ -78,6 +79,80 @@ Theorem C16_disciplined_safe : forall tr, disciplined tr = true ->
   exists s', run fs0 es = Some s' /\ safe_state s'.
 Proof. exact disciplined_safe. Qed.
 Print Assumptions C16_disciplined_safe.
+
+(* ---- data sizes: a data file written in BURSTS (Model/DurableChunks.v) -----------------------------------------
+   DataFileWriter receives its rows through any number of write_batch calls (write_data_file: batches of 1000
+   records; write_pandas_file: one batch) and close() adds the parquet footer: the temp file grows in bursts.
+   publish_data_chunked p chs is the regenerated data-writer sequence (Gen/GenDurable.v gen_data_writer) with its
+   single Write replaced by the bursts chs (gen_data_writer_burst each), each optionally followed by an incremental
+   fsync of the temp file.
+
+   For EVERY list of bursts -- any number, any sizes, any pattern of incremental fsyncs --, started in ANY prior
+   state in which the temp name is free, at every prefix and under every schedule: the final name durably holds what
+   it held before or the new inode with the WHOLE content (all bursts), never a partial file; the same for the
+   visible tree; after the last call it is durable and whole. *)
+Theorem C16_chunked_each_publish : forall (s0 : fs) (d n : N) (chs : list chunk),
+  entry (vol s0) (T d n) = None ->
+  forall k es, calls_of es = firstn k (publish_data_chunked (P d n) chs) ->
+  exists s', run s0 es = Some s'
+    /\ (entry (dur s') (P d n) = entry (dur s0) (P d n) \/ entry (dur s') (P d n) = entry (vol s0) (P d n)
+        \/ (entry (dur s') (P d n) = Some (next s0) /\ data (dur s') (next s0) = chunks_content chs))
+    /\ (entry (vol s') (P d n) = entry (vol s0) (P d n)
+        \/ (entry (vol s') (P d n) = Some (next s0) /\ data (vol s') (next s0) = chunks_content chs
+            /\ data (dur s') (next s0) = chunks_content chs))
+    /\ ((length (publish_data_chunked (P d n) chs) <= k)%nat ->
+        entry (dur s') (P d n) = Some (next s0) /\ data (dur s') (next s0) = chunks_content chs
+        /\ entry (vol s') (P d n) = Some (next s0) /\ data (vol s') (next s0) = chunks_content chs).
+Proof. exact chunked_each_publish. Qed.
+Print Assumptions C16_chunked_each_publish.
+
+(* ... and the chunked publish is accepted by the publish discipline wherever the one-Write publish is (temp name
+   unused, final name fresh, references durable), leaving the final name linked to the whole content with a durable
+   entry: C16_disciplined_safe applies to histories whose data files were written in bursts. *)
+Theorem C16_chunked_disciplined : forall g d n chs,
+  tmps g (T d n) = None -> st g (P d n) = Fresh -> forallb (ref_ok g) (refs (chunks_content chs)) = true ->
+  exists g', checks g (publish_data_chunked (P d n) chs) = Some g'
+             /\ st g' (P d n) = Linked (chunks_content chs) true.
+Proof. exact chunked_disciplined. Qed.
+Print Assumptions C16_chunked_disciplined.
+
+(* What may NOT depend on the sizes.  ANY trace in which a Write to a file is directly followed by the Rename of that
+   file -- no fsync after the LAST write, whatever was synced incrementally before -- is rejected by the discipline,
+   from every ghost state, whatever precedes and follows. *)
+Theorem C16_unsynced_tail_rejected : forall g pre f b q post,
+  checks g (pre ++ Write f b :: Rename f q :: post) = None.
+Proof. exact unsynced_tail_rejected. Qed.
+Print Assumptions C16_unsynced_tail_rejected.
+
+(* In particular the data writer without close()'s fsync (a writer that trusts its own bookkeeping of what was
+   synced incrementally) is rejected for every list of bursts whose last burst has no fsync of its own ... *)
+Theorem C16_nofinal_rejected : forall g d n chs b,
+  checks g (publish_data_chunked_nofinal (P d n) (chs ++ [mkChunk b false])) = None.
+Proof. exact nofinal_rejected. Qed.
+Print Assumptions C16_nofinal_rejected.
+
+(* ... and rightly: a first burst synced incrementally, a tail (the parquet footer) not, the rename, its directory
+   fsync -- from ANY prior state the plain drop-all power loss leaves the final name durably linked to the first burst
+   only (a torn file: a proper prefix whenever the tail is not empty) while running processes see the whole file. *)
+Theorem C16_unsynced_tail_torn : forall s0 d n a b, entry (vol s0) (T d n) = None ->
+  exists s', exec s0 [Create (T d n); Write (T d n) a; Fsync (T d n); Write (T d n) b; Rename (T d n) (P d n); FsyncDir d] = Some s'
+    /\ content_at (power_loss s') (P d n) = Some a /\ content_at (vol s') (P d n) = Some (a ++ b).
+Proof. exact unsynced_tail_torn. Qed.
+Print Assumptions C16_unsynced_tail_torn.
+
+(* non-vacuity: 101 bursts of row groups and the footer; the sequence the source performs today (no incremental
+   fsync) and one with an incremental fsync are both accepted; without the final fsync the Rename (call 4) is refused *)
+Definition ex_chunks (sync : bool) : list chunk := [mkChunk [Raw 652372] sync; mkChunk [Raw 21659] false].
+Example C16_chunks_nonvacuous :
+  publish_data_chunked (P 3 3) (ex_chunks true)
+    = [Create (T 3 3); Write (T 3 3) [Raw 652372]; Fsync (T 3 3); Write (T 3 3) [Raw 21659]; Fsync (T 3 3);
+       Rename (T 3 3) (P 3 3); FsyncDir 3]
+  /\ disciplined (publish_data_chunked (P 3 3) (ex_chunks true)) = true
+  /\ disciplined (publish_data_chunked (P 3 3) (ex_chunks false)) = true
+  /\ publish_data_chunked (P 3 3) [mkChunk [Raw 769] false] = publish_data (P 3 3) [Raw 769]
+  /\ first_bad g0 (publish_data_chunked_nofinal (P 3 3) (ex_chunks true)) 0 = Some 4%nat
+  /\ chunks_content (ex_chunks true) = [Raw 652372; Raw 21659].
+Proof. repeat split; vm_compute; reflexivity. Qed.
 
 (* ---- non-vacuity ----------------------------------------------------------------------------
    A concrete history: create_table, then an append of one data file (marker, data file, marker,
